@@ -6,7 +6,9 @@ import (
 	"github.com/influxdata/telegraf/plugins/parsers/influx"
 	"github.com/metrico/qryn/writer/model"
 	customErrors "github.com/metrico/qryn/writer/utils/errors"
+	"io"
 	"regexp"
+	"strings"
 	"time"
 )
 
@@ -38,7 +40,11 @@ type influxDec struct {
 }
 
 func (e *influxDec) Decode() error {
-	parser := influx.NewStreamParser(e.ctx.bodyReader)
+	// telegraf's stream parser never returns when the input ends right after a backslash
+	// inside a measurement name (`cpu\` without a line break: it keeps re-reading EOF in that
+	// state). A final line break is harmless in line protocol and turns the dangling
+	// escape into an ordinary parse error.
+	parser := influx.NewStreamParser(io.MultiReader(e.ctx.bodyReader, strings.NewReader("\n")))
 	precision := e.ctx.ctx.Value("precision").(time.Duration)
 	parser.SetTimePrecision(precision)
 
